@@ -435,6 +435,8 @@ R.contract(
 R.contract(
     "QuicConnection._write_retire_connection_id_frame",
     requires=["builder._packet is not None", "0 <= sequence_number <= 4611686018427387903"],
+    # '(again after loss)': the sequence number registered with the frame is the one the frame retires
+    call_asserts={"QuicPacketBuilder.start_frame": ["arg_handler_args[0] == sequence_number", "arg_frame_type == 25"]},
     assume_pre=["self._quic_logger is None or builder.quic_logger_frames is not None"],
     let={"pkt": "some(builder._packet)"},
     raises={"QuicPacketBuilderStop": None},
